@@ -502,6 +502,7 @@ def run(check, repo: Repo) -> None:
                 ok = bool(filtered) and all(f.lineno < c.lineno for f in filtered) and unparse(c.args[0] if c.args else c.func.value) == "values" \
                     and not cn.startswith("np.nan")
                 check.decide(ok, "C20-R5", f"{name}.get_limits: `{cn}` is taken over the finite values only", "", mod.line(c),
+                             definite=cn.startswith("np.nan") and not filtered,      # a nan-aware reducer with no finite filter anywhere: ±inf provably reaches it
                              fail_detail=f"`{unparse(c)[:50]}` sees non-finite entries (no preceding `values = values[np.isfinite(values)]`; nan-aware reducers "
                                          f"still see ±inf): one inf pixel makes the limits infinite and every finite value NaN")
     check.floor("data-derived limit reductions", n_red, 5)
